@@ -83,7 +83,7 @@ MUTANTS = [
     m("C07-pooled-get-none", "C07", "C07.R2", B, "                return client.get(key, default)\n            except Exception:\n                if self.ignore_exc:\n                    return default", "                return client.get(key, default)\n            except Exception:\n                if self.ignore_exc:\n                    return None"),
     m("C07-hash-get-many-none", "C07", "C07.R2", H, "result = self._safely_run_func(client, get_func, {}, *new_args, **kwargs)", "result = self._safely_run_func(client, get_func, None, *new_args, **kwargs)"),
     m("C07-connect-outside-try", "C07", "C07.R3", B, "        try:\n            if self.sock is None:\n                self._connect()\n\n                # For typing\n                assert self.sock is not None\n\n            self.sock.sendall(cmd)", "        if self.sock is None:\n            self._connect()\n        try:\n            self.sock.sendall(cmd)"),
-    m("C07-return-partial", "C07", "C07.R2", B, "            self.close()\n            if self.ignore_exc:\n                return {}\n            raise", "            self.close()\n            if self.ignore_exc:\n                return result\n            raise"),
+    m("C07-return-partial", "C07", "C07.R5", B, "            self.close()\n            if self.ignore_exc:\n                return {}\n            raise", "            self.close()\n            if self.ignore_exc:\n                return result\n            raise"),
     # ---------------- C08
     m("C08-release-unlocked", "C08", "C08.R1", P, "    def release(self, obj, silent=True) -> None:\n        with self._lock:\n            try:\n                self._used_objs.remove(obj)\n                self._free_objs.append(obj)\n                obj._last_used = self._idle_clock()\n            except ValueError:\n                if not silent:\n                    raise", "    def release(self, obj, silent=True) -> None:\n        try:\n            self._used_objs.remove(obj)\n            self._free_objs.append(obj)\n            obj._last_used = self._idle_clock()\n        except ValueError:\n            if not silent:\n                raise"),
     m("C08-create-outside-lock", "C08", "C08.R2", P, "                obj = self._obj_creator()\n\n            self._used_objs.append(obj)\n            obj._last_used = now\n            return obj", "                obj = None\n            if obj is not None:\n                self._used_objs.append(obj)\n                obj._last_used = now\n                return obj\n        obj = self._obj_creator()\n        with self._lock:\n            self._used_objs.append(obj)\n            obj._last_used = now\n            return obj"),
@@ -140,6 +140,7 @@ MUTANTS = [
     m("C15-latin", "C15", "C15.R2", S, 'return value.decode("utf8")', 'return value.decode("latin-1")'),
     m("C15-flag17", "C15", "C15.R1", S, "FLAG_TEXT = 1 << 4", "FLAG_TEXT = 1 << 17"),
     m("C15-decompress-wrong-bit", "C15", "C15.R5", S, "        if flags & FLAG_COMPRESSED:\n            value = self._decompress(value)\n", "        if flags & FLAG_TEXT:\n            value = self._decompress(value)\n"),
+    m("C15-pickle-version-dropped", "C15", "C15.R6", S, "    return partial(_python_memcache_serializer, pickle_version=pickle_version)", "    return partial(_python_memcache_serializer, pickle_version=DEFAULT_PICKLE_VERSION)"),
     m("C15-flag-both", "C15", "C15.R5", S, "            if len(old_value) < len(value):\n                value = old_value\n            else:\n                flags |= FLAG_COMPRESSED", "            flags |= FLAG_COMPRESSED\n            if len(old_value) < len(value):\n                value = old_value"),
     m("C15-int-str", "C15", "C15.R4", S, 'value = b"%d" % value', 'value = "%d" % value'),
     m("C15-silent-and-order", "C15", "", S, "        if len(value) > self._min_compress_len > 0:", "        if self._min_compress_len > 0 and len(value) > self._min_compress_len:", kind="silent"),
